@@ -17,7 +17,10 @@ RULE = ("cases = one-level (mode, M, L) synthesis operators and multi-level (mod
 
 def run(rep):
     fnd = Findings()
-    res, table = dwtmodel.run_ops(rep, rep.tier, ["SynthesisOK", "SynthesisDevExact"])
+    if rep.tier == "thorough":
+        from .. import proofs
+        proofs.attach(rep, "DWT1Proofs")     # TLAPS: SynthesisAll - the scalar form of sfb1d equals pywt.idwt for all sizes
+    res, table = dwtmodel.run_ops(rep, rep.tier, ["SynthesisOK", "SynthesisDevExact", "ScalarFormOK"])
     calls = dwtmodel.run_calls(rep, rep.tier, ["InvNoRaise", "InvExtent"], {"inv"},
                                **dwtmodel.small_inv(rep.tier))
     dwtchecks.synthesis_one_level(rep, fnd, table, "C10")
